@@ -260,119 +260,8 @@ func runC18(c *core.Ctx) {
 	}
 	c.Floor("R18.5", "forwarded arguments", nArgs, 2)
 
+	ruleBlockIndexAdvances(c)
 	gw := c.P.Fn("pwr", "ValidatingPool.GetWriter")
-	if gw == nil {
-		c.Missing("R18.2", "pwr.(*ValidatingPool).GetWriter", "not found")
-	} else {
-		isValErr := callLikeInvoke("ValidateAsError")
-		isValWound := callLikeInvoke("ValidateAsWound")
-		lits := findFuncLits(gw, func(f *ssa.Function) bool { return containsCall(f, isValErr) || containsCall(f, isValWound) })
-		if len(lits) != 1 {
-			c.Missing("R18.2", core.FnName(gw), "validate closure (the literal calling ValidateAsError/ValidateAsWound) not found")
-		} else {
-			lit := lits[0]
-			// the block-index cell: argument #1 of the validation calls
-			var idxCell ssa.Value
-			for _, in := range allInstrs(lit, anyOf(isValErr, isValWound)) {
-				args := in.(*ssa.Call).Call.Args
-				if len(args) >= 2 {
-					if ld, ok := args[1].(*ssa.UnOp); ok && ld.Op == token.MUL {
-						idxCell = core.CellRoot(ld.X)
-					}
-				}
-			}
-			isInc := func(in ssa.Instruction) bool {
-				st, ok := in.(*ssa.Store)
-				if !ok || idxCell == nil || core.CellRoot(st.Addr) != idxCell {
-					return false
-				}
-				bo, ok := st.Val.(*ssa.BinOp)
-				if !ok || bo.Op != token.ADD {
-					return false
-				}
-				n, ok := core.ConstInt(bo.Y)
-				if !ok || n != 1 {
-					return false
-				}
-				ld, ok := bo.X.(*ssa.UnOp)
-				return ok && ld.Op == token.MUL && core.CellRoot(ld.X) == idxCell
-			}
-			if idxCell == nil {
-				c.Missing("R18.2", core.FnName(lit), "block index variable passed to the block validator not found")
-			} else {
-				// an accepted block advances the index, once; a rejected one leaves it where it is - the drip writer
-				// keeps a rejected block and offers it again when it is closed, and it must then meet the same signed
-				// block, not the next one (a block equal to the next signed block would pass and reach the pool)
-				succ := map[ssa.Instruction]bool{}
-				for _, rs := range successReturns(lit) {
-					succ[rs.Ret] = true
-					p := core.FindPath(lit, nil, isInstr(rs.Ret), isInc)
-					o := c.Check(p == nil, "R18.2", core.FnName(lit), "blockIndex++ on every accepting path", core.InstrPos(rs.Ret),
-						"every path to a nil verdict increments the block index",
-						"a path through the validate closure accepts a block without advancing the block index: the next drip is compared with the wrong signature block")
-					o.Path = c.P.PathStrings(p)
-				}
-				ob, _ := pathEventBounds(lit, func(in ssa.Instruction) int {
-					if isInc(in) {
-						return 1
-					}
-					return 0
-				}, 0)
-				c.Check(ob.max <= 1, "R18.2", core.FnName(lit), "blockIndex++ at most once per drip", lit.Pos(),
-					"at most once ("+fmtBounds(ob)+")", "the block index can advance more than once per validated drip ("+fmtBounds(ob)+")")
-				for _, rs := range core.Returns(lit, -1) {
-					if rs.Val == nil || core.IsNilConst(rs.Val) {
-						continue
-					}
-					if np, known := core.MayBeNil(rs.Val); known && np && len(core.Origins(rs.Val)) == 1 {
-						continue
-					}
-					// can carry a rejection: no increment on any path on which it does
-					var bad []ssa.Instruction
-					for _, inc := range allInstrs(lit, isInc) {
-						for _, v := range allInstrs(lit, isValErr) {
-							vc := v.(*ssa.Call)
-							// a path validation -> increment -> this return that is not behind the nil outcome of the verdict
-							if p1 := ungatedPath(lit, vc, inc, nil); p1 != nil && isResultOf(rs.Val, vc) {
-								if p2 := core.FindPath(lit, inc, isInstr(rs.Ret), nil); p2 != nil {
-									bad = append(p1, p2...)
-								}
-							}
-						}
-					}
-					c.Check(bad == nil, "R18.2", core.FnName(lit), "a rejected block does not advance the index", core.InstrPos(rs.Ret),
-						"the increment is reached only through the nil outcome of ValidateAsError",
-						"the block index advances although the block was rejected: the drip writer still holds the rejected block and validates it again when it is closed - against the NEXT signed block; if it equals that one (the writer skipped a block, say) Close succeeds and the rejected block reaches the underlying pool").Path = c.P.PathStrings(bad)
-				}
-				// the index read by the validation call precedes the increment
-				for _, in := range allInstrs(lit, anyOf(isValErr, isValWound)) {
-					inc := firstInstr(lit, isInc)
-					c.Check(inc != nil && core.FindPath(lit, inc, isInstr(in), nil) == nil, "R18.2", core.FnName(lit), "validation uses the index before it is advanced: "+core.CalleeName(in.(*ssa.Call)), core.InstrPos(in),
-						"the increment never precedes the validation call", "the block index is advanced before the validation call reads it")
-				}
-			}
-			for _, in := range allInstrs(lit, isValWound) {
-				p := core.FindPath(lit, in, isReturn, func(x ssa.Instruction) bool { _, ok := x.(*ssa.Send); return ok })
-				o := c.Check(p == nil, "R18.2", core.FnName(lit), "wound verdict is sent", core.InstrPos(in),
-					"every path from ValidateAsWound to the return sends the verdict", "a wound-mode verdict can be dropped without being sent")
-				o.Path = c.P.PathStrings(p)
-			}
-			// error mode: the verdict is what the closure returns
-			for _, in := range allInstrs(lit, isValErr) {
-				call := in.(*ssa.Call)
-				ok := false
-				for _, rs := range core.Returns(lit, -1) {
-					for _, o := range core.Origins(rs.Val) {
-						if o == ssa.Value(call) {
-							ok = true
-						}
-					}
-				}
-				c.Check(ok, "R18.2", core.FnName(lit), "error verdict is returned", core.InstrPos(in),
-					"the result of ValidateAsError flows to the closure's result", "the result of ValidateAsError is not returned by the validate closure: mismatching blocks pass")
-			}
-		}
-	}
 
 	stageRules(c, "R18.3")
 
@@ -549,4 +438,123 @@ func ruleHashGroupsHaveTheirLength(c *core.Ctx, rule string) {
 			"the group stored for a file does not end with the file's last block (it is the rest of the hash list, or its end is not computed from the file's block count): the validators' test 'block index beyond the signed count' compares with a length that includes the following files' hashes")
 	})
 	c.Floor(rule, "stores into the hash groups", n, 1)
+}
+
+// ruleBlockIndexAdvances is R18.2 (shared with C05: in wound mode the block index decides which range a
+// wound names).
+func ruleBlockIndexAdvances(c *core.Ctx) {
+	c.Rule("R18.2", "validate closure: block index advances once for an accepted block and not for a rejected one; wound verdict is sent")
+	gw := c.P.Fn("pwr", "ValidatingPool.GetWriter")
+	if gw == nil {
+		c.Missing("R18.2", "pwr.(*ValidatingPool).GetWriter", "not found")
+	} else {
+		isValErr := callLikeInvoke("ValidateAsError")
+		isValWound := callLikeInvoke("ValidateAsWound")
+		lits := findFuncLits(gw, func(f *ssa.Function) bool { return containsCall(f, isValErr) || containsCall(f, isValWound) })
+		if len(lits) != 1 {
+			c.Missing("R18.2", core.FnName(gw), "validate closure (the literal calling ValidateAsError/ValidateAsWound) not found")
+		} else {
+			lit := lits[0]
+			// the block-index cell: argument #1 of the validation calls
+			var idxCell ssa.Value
+			for _, in := range allInstrs(lit, anyOf(isValErr, isValWound)) {
+				args := in.(*ssa.Call).Call.Args
+				if len(args) >= 2 {
+					if ld, ok := args[1].(*ssa.UnOp); ok && ld.Op == token.MUL {
+						idxCell = core.CellRoot(ld.X)
+					}
+				}
+			}
+			isInc := func(in ssa.Instruction) bool {
+				st, ok := in.(*ssa.Store)
+				if !ok || idxCell == nil || core.CellRoot(st.Addr) != idxCell {
+					return false
+				}
+				bo, ok := st.Val.(*ssa.BinOp)
+				if !ok || bo.Op != token.ADD {
+					return false
+				}
+				n, ok := core.ConstInt(bo.Y)
+				if !ok || n != 1 {
+					return false
+				}
+				ld, ok := bo.X.(*ssa.UnOp)
+				return ok && ld.Op == token.MUL && core.CellRoot(ld.X) == idxCell
+			}
+			if idxCell == nil {
+				c.Missing("R18.2", core.FnName(lit), "block index variable passed to the block validator not found")
+			} else {
+				// an accepted block advances the index, once; a rejected one leaves it where it is - the drip writer
+				// keeps a rejected block and offers it again when it is closed, and it must then meet the same signed
+				// block, not the next one (a block equal to the next signed block would pass and reach the pool)
+				succ := map[ssa.Instruction]bool{}
+				for _, rs := range successReturns(lit) {
+					succ[rs.Ret] = true
+					p := core.FindPath(lit, nil, isInstr(rs.Ret), isInc)
+					o := c.Check(p == nil, "R18.2", core.FnName(lit), "blockIndex++ on every accepting path", core.InstrPos(rs.Ret),
+						"every path to a nil verdict increments the block index",
+						"a path through the validate closure accepts a block without advancing the block index: the next drip is compared with the wrong signature block")
+					o.Path = c.P.PathStrings(p)
+				}
+				ob, _ := pathEventBounds(lit, func(in ssa.Instruction) int {
+					if isInc(in) {
+						return 1
+					}
+					return 0
+				}, 0)
+				c.Check(ob.max <= 1, "R18.2", core.FnName(lit), "blockIndex++ at most once per drip", lit.Pos(),
+					"at most once ("+fmtBounds(ob)+")", "the block index can advance more than once per validated drip ("+fmtBounds(ob)+")")
+				for _, rs := range core.Returns(lit, -1) {
+					if rs.Val == nil || core.IsNilConst(rs.Val) {
+						continue
+					}
+					if np, known := core.MayBeNil(rs.Val); known && np && len(core.Origins(rs.Val)) == 1 {
+						continue
+					}
+					// can carry a rejection: no increment on any path on which it does
+					var bad []ssa.Instruction
+					for _, inc := range allInstrs(lit, isInc) {
+						for _, v := range allInstrs(lit, isValErr) {
+							vc := v.(*ssa.Call)
+							// a path validation -> increment -> this return that is not behind the nil outcome of the verdict
+							if p1 := ungatedPath(lit, vc, inc, nil); p1 != nil && isResultOf(rs.Val, vc) {
+								if p2 := core.FindPath(lit, inc, isInstr(rs.Ret), nil); p2 != nil {
+									bad = append(p1, p2...)
+								}
+							}
+						}
+					}
+					c.Check(bad == nil, "R18.2", core.FnName(lit), "a rejected block does not advance the index", core.InstrPos(rs.Ret),
+						"the increment is reached only through the nil outcome of ValidateAsError",
+						"the block index advances although the block was rejected: the drip writer still holds the rejected block and validates it again when it is closed - against the NEXT signed block; if it equals that one (the writer skipped a block, say) Close succeeds and the rejected block reaches the underlying pool").Path = c.P.PathStrings(bad)
+				}
+				// the index read by the validation call precedes the increment
+				for _, in := range allInstrs(lit, anyOf(isValErr, isValWound)) {
+					inc := firstInstr(lit, isInc)
+					c.Check(inc != nil && core.FindPath(lit, inc, isInstr(in), nil) == nil, "R18.2", core.FnName(lit), "validation uses the index before it is advanced: "+core.CalleeName(in.(*ssa.Call)), core.InstrPos(in),
+						"the increment never precedes the validation call", "the block index is advanced before the validation call reads it")
+				}
+			}
+			for _, in := range allInstrs(lit, isValWound) {
+				p := core.FindPath(lit, in, isReturn, func(x ssa.Instruction) bool { _, ok := x.(*ssa.Send); return ok })
+				o := c.Check(p == nil, "R18.2", core.FnName(lit), "wound verdict is sent", core.InstrPos(in),
+					"every path from ValidateAsWound to the return sends the verdict", "a wound-mode verdict can be dropped without being sent")
+				o.Path = c.P.PathStrings(p)
+			}
+			// error mode: the verdict is what the closure returns
+			for _, in := range allInstrs(lit, isValErr) {
+				call := in.(*ssa.Call)
+				ok := false
+				for _, rs := range core.Returns(lit, -1) {
+					for _, o := range core.Origins(rs.Val) {
+						if o == ssa.Value(call) {
+							ok = true
+						}
+					}
+				}
+				c.Check(ok, "R18.2", core.FnName(lit), "error verdict is returned", core.InstrPos(in),
+					"the result of ValidateAsError flows to the closure's result", "the result of ValidateAsError is not returned by the validate closure: mismatching blocks pass")
+			}
+		}
+	}
 }
